@@ -257,7 +257,11 @@ def in_place_history(ctx, rng, src, sdl):
     sub = " { __typename }" if ir.kind(S.unwrap(f.type)) in ("object", "interface", "union") else ""
     text = "query ($v: %s) { probe: %s(%s)%s }" % (S.type_str(a.type), f.name, ", ".join(args), sub)
     value = src.sg.input_value_for(a.type, allow_null=False)
+    with_hidden = None
     if isinstance(value, dict):
+        if hidden.name not in value:
+            value[hidden.name] = src.sg.input_value_for(hidden.type)
+        with_hidden = {"v": to_json_value(value)}
         value.pop(hidden.name, None)
     variables = {"v": to_json_value(value)}
 
@@ -267,8 +271,8 @@ def in_place_history(ctx, rng, src, sdl):
 
     witness = {"schema_sdl": sdl, "document": text, "variables": variables, "hidden_input_field": "%s.%s" % (t.name, hidden.name)}
 
-    def ask(schema, document):
-        r = py_gql.graphql_blocking(schema, document, variables=variables, root=src.binding.root_value(ir.query))
+    def ask(schema, document, payload=None):
+        r = py_gql.graphql_blocking(schema, document, variables=payload or variables, root=src.binding.root_value(ir.query))
         return (repr(r.data), sorted(str(e) for e in r.errors))
 
     ctx.evaluated()
@@ -280,14 +284,108 @@ def in_place_history(ctx, rng, src, sdl):
         copy_.validate()
         after = ask(copy_, document)
         fresh = ask(transform_schema(src.schema, Hide()), parse(text))
+        # the hidden input field handed over through the variable: a removed element, nothing a request can use
+        smuggled = []
+        if with_hidden is not None:
+            smuggled.append(("the schema transformed in place after it had coerced that input type", ask(copy_, document, with_hidden)))
+            # ... and a clone-based transform of a source that has coerced that input type before
+            ask(src.schema, parse(text))
+            smuggled.append(("a clone-based transform of a source that had coerced that input type",
+                             ask(transform_schema(src.schema, Hide()), parse(text), with_hidden)))
     except Exception as e:
         ctx.count("in_place_history_not_applicable:%s" % type(e).__name__)
         return
     ctx.count("in_place_histories")
     ctx.mark_nontrivial([sdl, text, "in-place"])
+    for where, answer in smuggled:
+        ctx.count("hidden_input_fields_passed_through_variables")
+        if not answer[1]:
+            ctx.violation("removed:hidden-input-field-accepted-through-variables", dict(witness, variables=with_hidden),
+                          "%s answered %r without any error" % (where, answer[0][:120]))
+            return
     if after != fresh:
         ctx.violation("history:in-place-transform:same-document-answers-differently", witness,
                       "after in-place transform %r; fresh transform %r; before %r" % (after[1][:2] or after[0][:80], fresh[1][:2] or fresh[0][:80], before[1][:1]))
+
+
+def members_record(schema):
+    out = {}
+    for t in schema.types.values():
+        if t.name.startswith("__"):
+            continue
+        for v in (getattr(t, "values", None) or []) if type(t).__name__.endswith("EnumType") else []:
+            out[("enum-value", t.name, v.name)] = (v.description, v.deprecation_reason)
+        if hasattr(t, "types"):
+            continue
+        for f in getattr(t, "fields", None) or []:
+            out[("field", t.name, f.name)] = (id(getattr(f, "resolver", None)), f.description,
+                                              getattr(f, "deprecation_reason", None))
+            for a in getattr(f, "arguments", None) or []:
+                out[("argument", t.name, f.name, a.name)] = (a.description,)
+    return out
+
+
+def member_edit_history(ctx, rng, src, sdl):
+    """transform_schema() works on a clone so that a visitor may edit what it is handed: members changed *in place*
+    (a resolver decorated, a description or deprecation set, the member returned as it is), or resolvers
+    registered on the result, must leave the source what it was."""
+    from py_gql.schema import SchemaVisitor
+    from py_gql.schema.transforms import transform_schema
+
+    mode = rng.choice(["resolver", "description", "deprecation", "register"])
+    salt = rng.randrange(4)
+
+    def pick(name):
+        return (len(name) + salt) % 2 == 0
+
+    class EditInPlace(SchemaVisitor):
+        def on_field(self, field):
+            field = SchemaVisitor.on_field(self, field)
+            if field is not None and pick(field.name):
+                if mode == "resolver" and field.resolver is not None:
+                    inner = field.resolver
+                    field.resolver = lambda *a, **kw: inner(*a, **kw)
+                elif mode == "description":
+                    field.description = "edited by the transform"
+                elif mode == "deprecation":
+                    field.deprecation_reason = "edited by the transform"
+            return field
+
+        def on_argument(self, argument):
+            if mode == "description" and pick(argument.name):
+                argument.description = "edited by the transform"
+            return argument
+
+        def on_enum_value(self, enum_value):
+            if pick(enum_value.name):
+                if mode == "description":
+                    enum_value.description = "edited by the transform"
+                elif mode == "deprecation":
+                    enum_value.deprecation_reason = "edited by the transform"
+            return enum_value
+
+    witness = {"schema_sdl": sdl, "edit": mode, "class": "members edited in place by a clone-based transform"}
+    before = members_record(src.schema)
+    ctx.evaluated()
+    try:
+        result = transform_schema(src.schema, EditInPlace())
+        if mode == "register":
+            for t in result.types.values():
+                if type(t).__name__ == "ObjectType" and not t.name.startswith("__"):
+                    for f in t.fields:
+                        if pick(f.name):
+                            result.register_resolver(t.name, f.name, lambda *a, **kw: None, allow_override=True)
+    except Exception as e:
+        ctx.count("member_edit_history_not_applicable:%s" % type(e).__name__)
+        return
+    ctx.count("member_edit_histories:" + mode)
+    after = members_record(src.schema)
+    changed = sorted((k for k in before if after.get(k) != before[k]), key=repr)
+    if changed:
+        ctx.violation("source-modified:member-edited-in-place-on-the-clone:%s" % changed[0][0], witness,
+                      "%r: %r -> %r" % (changed[0], before[changed[0]][1:], after.get(changed[0], ("?",))[1:]))
+    if members_record(result) == before and mode != "register":
+        ctx.count("member_edit_histories_without_effect")
 
 
 def in_place_renaming_history(ctx, rng, src, sdl):
@@ -378,6 +476,7 @@ def run(ctx):
         # answer must be the one a fresh clone-based transform gives
         in_place_history(ctx, rng, src, sdl)
         in_place_renaming_history(ctx, rng, src, sdl)
+        member_edit_history(ctx, rng, src, sdl)
 
         for si in range(5):
             states = [source]
